@@ -80,6 +80,11 @@ def scenarios(rng, tier):
              "cmd": ("recheck", "symlink", False, ["a.txt", "b.txt", "c.txt"]), "paths": ["a.txt", "b.txt", "c.txt"]},
             {"name": "track-same-content", "setup": base + [("W", "n.txt", b1)],
              "cmd": ("track", None, ["n.txt"]), "paths": ["a.txt", "b.txt", "c.txt", "n.txt"]},
+            # `track` without --recheck-method over an edited file whose stored method is not the default:
+            # the configured default (copy) is recorded and used (TrackCLI::update_from_conf)
+            {"name": "track-default-method", "setup": [("W", "a.txt", a1), ("W", "b.txt", b1), ("track", "symlink", ["a.txt", "b.txt"]),
+                                                       ("W", "a.txt", a2)],
+             "cmd": ("track", None, ["a.txt", "b.txt"]), "paths": ["a.txt", "b.txt"]},
     ]
     if tier == "thorough":
         scs += [
@@ -91,6 +96,13 @@ def scenarios(rng, tier):
              "cmd": ("track", "symlink", ["n.txt", "m.txt"]), "paths": ["a.txt", "b.txt", "c.txt", "n.txt", "m.txt"]},
             {"name": "track-first", "setup": [("W", "a.txt", a1), ("W", "b.txt", b1)],
              "cmd": ("track", None, ["a.txt", "b.txt"]), "paths": ["a.txt", "b.txt"]},
+            # content that is already in the cache, committed through a link method (P23b)
+            {"name": "track-hardlink-cached-content", "setup": [("W", "a.txt", a1), ("W", "b.txt", b1), ("track", "hardlink", ["a.txt", "b.txt"]),
+                                                                ("W", "a.txt", b1)],
+             "cmd": ("track", "hardlink", ["a.txt"]), "paths": ["a.txt", "b.txt"]},
+            {"name": "carry-in-cached-content", "setup": [("W", "a.txt", a1), ("W", "b.txt", b1), ("W", "c.txt", c1),
+                                                          ("track", "symlink", ["a.txt", "b.txt", "c.txt"]), ("W", "a.txt", b1), ("W", "c.txt", c2)],
+             "cmd": ("carry", ["a.txt", "b.txt", "c.txt"]), "paths": ["a.txt", "b.txt", "c.txt"]},
         ]
     return scs
 
@@ -636,6 +648,17 @@ def moves_into_cache(c):
     return (c[0] == "rename" and (c[1] or "").startswith("ws:")) or (c[0] == "unlink" and (c[1] or "").startswith("obj:"))
 
 
+def replaces_workspace_file(c):
+    """unlink of a workspace file: the content step of carry_in() when the bytes to commit are already in
+    the cache (move_to_cache is skipped, no rename happens)"""
+    return c[0] == "unlink" and (c[1] or "").startswith("ws:")
+
+
+def commits_content(full):
+    """the command saves the content-digest store (track / carry-in of new content; never recheck)"""
+    return any(completes_record_save(c) and "content-digest" in ((c[1] or "") + " " + (c[2] or "")) for c in full)
+
+
 def classes_of(done, killed, full):
     """full: the canonical calls of the uninterrupted run (as a multiset: the order of the per-file
     groups varies with the HashMap seed)"""
@@ -653,6 +676,12 @@ def classes_of(done, killed, full):
         ks.append("crash-between-records-and-content")
     if any(completes_record_save(c) for c in done) and any(completes_record_save(c) for c in todo):
         ks.append("partial-record-set")
+    # P23b: the same order of effects as P23 when the content is already in the cache
+    # (K_crash_between_records_and_replacement of Crash/Model.v, without the rename case, which is P23's)
+    if commits_content(full) and (
+            (any(completes_record_save(c) for c in done) and any(replaces_workspace_file(c) for c in todo)) or
+            (any(replaces_workspace_file(c) for c in done) and any(completes_record_save(c) for c in todo))):
+        ks.append("crash-between-records-and-replacement")
     if killed and killed[0] == "chmod" and (killed[1] or "").startswith(("obj:", "objdir:")) and killed[2] == "r":
         ks.append("object-left-writable")
     return ks
@@ -772,7 +801,7 @@ def obs_diff(a, b):
 CLAUSE_CLASS = {"loads": ["torn-event-file"],
                 "restore-fails": ["partial-record-set"],
                 "rerun-diverges": ["torn-event-file", "partial-record-set", "crash-during-workspace-copy", "crash-between-records-and-content",
-                                   "object-left-writable"]}
+                                   "object-left-writable", "crash-between-records-and-replacement"]}
 
 
 def classify(clause, ks):
@@ -984,8 +1013,9 @@ def run(chk, replay=None):
     chk.cov["rule"] = ("one evaluation = one real kill of the xvc binary (SIGKILL injected by strace at the entry of the K-th invocation of one syscall) "
                        "followed by the full oracle, or one effect-list comparison model vs strace. non-trivial = the kill preceded a file-system mutating call "
                        "(or is an effect-list comparison); distinct by (scenario, number of mutating calls completed, canonical call the kill preceded). "
-                       "quick: corpus, then track, carry-in, recheck on a 3-4 file repository with history, every 2nd crash point (offset by the seed); "
-                       "thorough: every point, plus recheck with symlink / hardlink / --force, track with symlink and with duplicate content, first track, "
+                       "quick: corpus (incl. the two P23b witnesses), then track, carry-in, recheck, recheck as symlink, track of duplicate content and track with the default method over "
+                       "symlinked records on a 2-4 file repository with history, every crash point; "
+                       "thorough: plus recheck with hardlink / --force, track with symlink, first track, track --recheck-method hardlink and carry-in of content that is already in the cache, "
                        "and (oracle only) copy, move, remove --from-cache, untrack, pipeline step new")
     chk.cov["distribution"] = dist
     chk.cov["exhaustive"] = False
